@@ -135,6 +135,31 @@ def fco2_sweep(name, concs):
             "bounds": [{"at": to_num(369.41), "value": to_num(1.0)}]}
 
 
+def fco2_later_season_sweep(name, concs):
+    """the same factor as the model recomputes it at the start of every later season (timestep/reset_initial_conditions.py has its own copy
+    of the formula): two-season window, initialised, then the season-start reset of season 2 is called as update_time does"""
+    import scenario as S
+    import scenlib as L
+    from aquacrop.timestep.reset_initial_conditions import reset_initial_conditions
+    vals = []
+    for x in concs:
+        sc = L.scenario(name, "SandyLoam", seed=1, seasons=2, co2={"constant_conc": True, "current_concentration": float(x)})
+        m = S.make_model(sc)
+        try:
+            m._initialize()
+        except AssertionError:
+            return None
+        cs = m._clock_struct
+        if int(cs.n_seasons) < 2:
+            return None
+        cs.season_counter = 1
+        cs.step_start_time = cs.planting_dates[1]
+        reset_initial_conditions(cs, m._init_cond, m._param_struct, m._weather, m.crop)
+        vals.append(float(m._param_struct.Seasonal_Crop_List[1].fCO2))
+    return {"f": "fCO2.laterSeason", "crop": name, "kind": "mono", "dir": "nondec", "lo": to_num(0.5), "hi": to_num(3.0), "pts": pts(concs, vals), "x": {},
+            "bounds": [{"at": to_num(369.41), "value": to_num(1.0)}]}
+
+
 def crop_worker(args):
     name, dense, seed = args
     import random as _r
@@ -142,5 +167,7 @@ def crop_worker(args):
 
 
 def fco2_worker(args):
-    name, concs = args
+    name, concs = args[0], args[1]
+    if len(args) > 2 and args[2] == "later":
+        return fco2_later_season_sweep(name, concs)
     return fco2_sweep(name, concs)
